@@ -506,6 +506,9 @@ func PlanSchedule(g *Gen, p *Program, ei int, steps [][]uint64) {
 				if ti < len(steps) && oi < len(steps[ti]) {
 					n = steps[ti][oi]
 				}
+				if steps == nil {
+					n = uint64(g.R.Range(20, 600)) // a cold run: no calibration, a guess
+				}
 				if style >= 2 && n > 0 {
 					k := []int{0, 0, 1, 1, 1, 2, 2, 3, 4}[g.R.N(9)]
 					for i := 0; i < k; i++ {
